@@ -22,6 +22,7 @@ UNIT = Unit(
         TypeItem("lib/melvm/src/lib.rs", "struct", "CovenantEnv"),
         Fn("src/smtmapping.rs", "get", impl="SmtMapping", mode="assume", wrap=SMT_WRAP, **smt_get()),
         Fn("lib/tip911-stakeset/src/lib.rs", "get_stake", impl="StakeSet", mode="assume", **ss_get_stake()),
+        Fn("lib/tip911-stakeset/src/lib.rs", "is_frozen", impl="StakeSet", mode="assume", **ss_is_frozen()),
         Fn(S, "seal", impl="UnsealedState", mode="assume", sig_subst=[("mut self", "self")], **st_seal_full()),
         Fn(S, "header", impl="SealedState", mode="assume", **st_header_full()),
         Fn("lib/melvm/src/lib.rs", "from_bytes", impl="Covenant", mode="assume", **mv_from_bytes()),
